@@ -31,7 +31,7 @@ func init() {
 }
 
 var readEvents = map[string]bool{"Reset": true, "Submit": true, "IntroSegment": true, "Return": true,
-	"ReadBegin": true, "ReadEnd": true, "ReaderOpenBegin": true, "ReaderObs": true, "ReaderClose": true}
+	"ReadBegin": true, "ReadEnd": true, "TermRead": true, "ReaderOpenBegin": true, "ReaderObs": true, "ReaderClose": true}
 
 func records(evs []sx.Event) []any {
 	var out []any
@@ -98,8 +98,22 @@ func runScorch(c *core.Ctx, name string, wl sx.Workload, seed int64) (*outcome, 
 					return
 				}
 				r.Rec.Emit("ReadEnd", map[string]any{"c": cl, "docs": docs})
+				// a query that MATCHES on the version term and returns the STORED version:
+				// both must come from the same snapshot
+				if nb := r.Rec.Count("Submit"); nb > 0 {
+					b := nb - rng.Intn(3)
+					if b < 1 {
+						b = 1
+					}
+					tdocs, err := sx.SearchVersion(r.Idx, b)
+					if err != nil {
+						fail(err)
+						return
+					}
+					r.Rec.Emit("TermRead", map[string]any{"c": cl, "b": b, "docs": tdocs})
+				}
 				mu.Lock()
-				out.Reads++
+				out.Reads += 2
 				mu.Unlock()
 				time.Sleep(time.Duration(rng.Intn(1500)) * time.Microsecond)
 			}
@@ -347,7 +361,7 @@ func judge(c *core.Ctx, outs []*outcome) {
 	for _, o := range outs {
 		for _, r := range o.Records {
 			m := r.(map[string]any)
-			if m["ev"] == "ReadEnd" || m["ev"] == "ReaderObs" {
+			if m["ev"] == "ReadEnd" || m["ev"] == "ReaderObs" || m["ev"] == "TermRead" {
 				c.Eval(1)
 				if d, ok := m["docs"].([][]any); ok && len(d) > 0 {
 					c.Distinct(core.Canon([]any{o.Name, m["docs"]}))
